@@ -7,6 +7,8 @@ import (
 	"os/exec"
 	"path/filepath"
 	"regexp"
+	"runtime/debug"
+	"runtime/pprof"
 	"strconv"
 	"strings"
 	"sync"
@@ -217,6 +219,26 @@ func RunWorker(c *Check, tier string, seed int64, batch, batches int, out, journ
 	w.Scratch, _ = os.Getwd()
 	if journal != "" {
 		w.journal, _ = os.OpenFile(journal, os.O_CREATE|os.O_WRONLY|os.O_APPEND, 0o644)
+	}
+	// every ledger node costs ~250 MB while open and its closed stores stay referenced by the node's own
+	// five-minute ticker goroutines: collect eagerly so that the parallel workers stay small
+	debug.SetGCPercent(40)
+	debug.SetMemoryLimit(5 << 30)
+	if hp := os.Getenv("VERIF_HEAPPROF"); hp != "" {
+		// debugging aid: heap profile of the worker every 5 s (last one wins)
+		go func() {
+			for {
+				time.Sleep(5 * time.Second)
+				if f, err := os.Create(hp); err == nil {
+					pprof.WriteHeapProfile(f)
+					f.Close()
+				}
+				if f, err := os.Create(hp + ".goroutines"); err == nil {
+					pprof.Lookup("goroutine").WriteTo(f, 1)
+					f.Close()
+				}
+			}
+		}()
 	}
 	c.Worker(w)
 	if err := w.R.Save(out); err != nil {
